@@ -54,13 +54,14 @@ static Shape shape(int id, bool msgpack, Rng& r) {
 
 struct RunOut { AJ::DeserializationError err; size_t nesting = 0; size_t stack = 0; };
 
+static bool g_filter_first = false;
 static RunOut run(const std::string& bytes, const Shape& s, uint8_t L) {
   RunOut o;
   AJ::JsonDocument filter;
   if (s.filter == 1) filter["keep"] = true;
   if (s.filter == 2) filter["a"] = true;
   AJ::JsonDocument doc;
-  DeserOpt op; op.msgpack = s.msgpack; op.limit = L; op.use_filter = s.filter != 0; op.filter = filter.as<AJ::JsonVariantConst>();
+  DeserOpt op; op.msgpack = s.msgpack; op.limit = L; op.filter_first = g_filter_first; op.use_filter = s.filter != 0; op.filter = filter.as<AJ::JsonVariantConst>();
   ReadStats st;
   char anchor;
   o.err = deser_kind(IN_CUSTOM_READER, doc, bytes, op, &st);
@@ -79,6 +80,7 @@ void vf_run_case(Ctx& c, uint64_t index) {
     msgpack = k >= NSHAPES_JSON; sid = msgpack ? k - NSHAPES_JSON : k;
   } else { L = (int)r.below(256); msgpack = r.coin(); sid = (int)r.below(msgpack ? NSHAPES_MP : NSHAPES_JSON); }
   Shape s = shape(sid, msgpack, r);
+  g_filter_first = ((L + sid) & 1) != 0;   // (Filter, NestingLimit) and (NestingLimit, Filter) argument orders alternate over the grid
   size_t per = levels_per_unit(s);
   size_t outer = s.pre.empty() ? 0 : 1;            // the enclosing object of the filter shapes is one level itself
   std::string wit0 = std::string(msgpack ? "msgpack " : "json ") + s.name + ", limit " + std::to_string(L);
